@@ -275,7 +275,7 @@ pub fn run(ctx: &mut Ctx) {
     for (n, ok) in r9::selftest(false) {
         ctx.selftest(&n, ok);
     }
-    ctx.require(&["free_invocation", "used_equals_drawn_checked", "injection_out_of_range", "injection_rejected_then_valid_used", "injection_long_rejection_run", "threads", "exchange_object_reuse_step", "inject:0", "inject:order", "inject:order+1", "inject:2^256-1", "inject:sm2_[n,p-2]"]);
+    ctx.require(&["free_invocation", "used_equals_drawn_checked", "injection_out_of_range", "injection_rejected_then_valid_used", "injection_long_rejection_run", "consecutive_calls_one_process", "threads", "exchange_object_reuse_step", "inject:0", "inject:order", "inject:order+1", "inject:2^256-1", "inject:sm2_[n,p-2]"]);
     for s in SITES.iter() {
         ctx.required.push(format!("site:{}", s.name));
     }
@@ -318,6 +318,39 @@ pub fn run(ctx: &mut Ctx) {
                 Err(e) => ctx.violation(&format!("{}:free:{}", site.name, e), json!({"site": site.name})),
             }
         }
+    }
+    // ---- 260 consecutive invocations of one site in ONE process (site j in shard j): a generator that repeats or degrades
+    // after a number of calls (a counter that wraps at 256, a periodic "refresh") shows only in a long run of one process
+    for (j, site) in SITES.iter().enumerate() {
+        if j % ctx.nshards != ctx.shard {
+            continue;
+        }
+        let mut run: Vec<BigUint> = vec![];
+        for i in 0..260u32 {
+            ctx.eval();
+            ctx.class("consecutive_calls_one_process");
+            match invoke(site, &fx, &mut p, i % 64 == 63, &[]) {
+                Ok((seen, used)) => {
+                    record(ctx, site, &seen, &used, "consecutive");
+                    for a in &seen.accepted {
+                        if run.contains(a) {
+                            ctx.violation(&format!("{}:scalar-repeated-within-one-process", site.name), json!({"site": site.name, "call_number": i}));
+                        }
+                        run.push(a.clone());
+                        if a.bits() <= 256 {
+                            ctx.unique(site.name, &r2::b32(a)[..16]);
+                        }
+                    }
+                }
+                Err(e) => {
+                    ctx.violation(&format!("{}:consecutive:{}", site.name, e), json!({"site": site.name, "call_number": i}));
+                    break;
+                }
+            }
+        }
+    }
+    if SITES.len() <= ctx.shard {
+        ctx.class("consecutive_calls_one_process");
     }
     // ---- histories on reused SM2 Exchange objects: every call that needs a scalar must draw a fresh one, also when
     // the same object already ran a session (as initiator or as responder)
